@@ -34,4 +34,8 @@ CHECKS = {
             "fuzz": [{"target": "FuzzC08_unknown", "sub": "unknown", "time": 90}]},
     "C09": {"pkg": "cli", "assumptions": CLI_ASSUME + ["whether a candidate is a stop token is established on the real parser without require-order (model-free)"],
             "subs": [sub("TestC09_order", 30000, 1200000, 16)]},
+    "C10": {"pkg": "cli", "assumptions": CLI_ASSUME + ["addressed command computed by the reference model; no required options and no help request in these cases (C11 covers them)"],
+            "subs": [sub("TestC10_dispatch", 40000, 1600000, 16)]},
+    "C11": {"pkg": "cli", "assumptions": CLI_ASSUME + ["which of several missing required options is named is not asserted here (C20)"],
+            "subs": [sub("TestC11_required", 30000, 1200000, 16)]},
 }
